@@ -519,11 +519,7 @@ func (n *ForNode) renderForLoop(w io.Writer, ctx *RenderContext, seq interface{}
 			loopVars["loop"].(map[string]interface{})["last"] = i == length-1
 
 			// Set the value variable
-			if val.MapIndex(key).CanInterface() {
-				loopCtx.SetVariable(n.valueVar, val.MapIndex(key).Interface())
-			} else {
-				loopCtx.SetVariable(n.valueVar, nil)
-			}
+			loopCtx.SetVariable(n.valueVar, mapEntry(val, key))
 
 			// Set the key variable if provided
 			if n.keyVar != "" {
